@@ -15,7 +15,7 @@ Fixpoint wf (t : tr) : bool :=
   | TMerged ts k e =>
       (fix all (l : list tr) : bool := match l with [] => true | x :: r => wf x && all r end) ts
       && (e || match nth_error ts k with Some x => negb (exhausted x) | None => false end)
-  | TCache t0 e | TDistinct t0 e _ | TUniquified t0 e | TCharset t0 e => wf t0 && (e || negb (exhausted t0))
+  | TCache t0 e | TDistinct t0 e _ | TUniquified t0 e _ | TCharset t0 e => wf t0 && (e || negb (exhausted t0))
   | TPrefetch t0 q e => wf t0 && (e || negb (is_nil q) || negb (exhausted t0))
   end.
 
@@ -51,7 +51,7 @@ Lemma wf_peek : forall n t, height t <= n -> wf t = true -> exhausted t = false 
 Proof.
   induction n as [|n IH]; intros t Hh Hw He.
   { destruct t; cbn [height] in Hh; lia. }
-  destruct t as [cd e|cd e|l|ts|ts k e|t e|t e s|t q e|t e|t e]; cbn [exhausted] in He.
+  destruct t as [cd e|cd e|l|ts|ts k e|t e|t e s|t q e|t e|t e yl]; cbn [exhausted] in He.
   - subst e. discriminate.
   - subst e. discriminate.
   - destruct l; [discriminate|]. discriminate.
@@ -111,16 +111,19 @@ Section LoopsWf.
     - destruct (nx t c) as [[r0 t'] c']. now apply IH.
   Qed.
 
-  Lemma uniquify_wf fuel : forall t c, wf t = true ->
-    let r := uniquify nx fuel t (exhausted t) c in
+  Lemma uniquify_wf fuel yl : forall t c, wf t = true ->
+    let r := uniquify nx fuel yl t (exhausted t) c in
     wf (snd (fst (fst r))) = true /\ (snd (fst r) = true \/ exhausted (snd (fst (fst r))) = false).
   Proof.
     induction fuel as [|f IH]; intros t c Hw; [split; [exact Hw|now left]|].
     cbn [uniquify]. destruct (exhausted t) eqn:E; [split; [exact Hw|now left]|].
     destruct (peek t) as [p|]; [|split; [exact Hw|now right]].
-    destruct (find_text (c_text p) c) as [k|]; [|split; [exact Hw|now right]].
-    pose proof (Hnx t (rewrite_at k p c) Hw) as H.
-    destruct (nx t (rewrite_at k p c)) as [[r0 t'] c2]. now apply IH.
+    destruct (find_text (c_text p) c) as [k|].
+    - pose proof (Hnx t (rewrite_at k p c) Hw) as H.
+      destruct (nx t (rewrite_at k p c)) as [[r0 t'] c2]. now apply IH.
+    - destruct (has_text yl (c_text p)); [|split; [exact Hw|now right]].
+      pose proof (Hnx t c Hw) as H.
+      destruct (nx t c) as [[r0 t'] c2]. now apply IH.
   Qed.
 
   Lemma rearrange_wf fuel : forall t top bottom c, wf t = true ->
@@ -219,7 +222,7 @@ Qed.
 Lemma next_d_wf d : nx_wf (next_d d).
 Proof.
   induction d as [|d IH]; intros t c Hw; [reflexivity|].
-  destruct t as [cd e|cd e|l|ts|ts k e|t e|t e s|t q e|t e|t e]; cbn [next_d].
+  destruct t as [cd e|cd e|l|ts|ts k e|t e|t e s|t q e|t e|t e yl]; cbn [next_d].
   - destruct e; reflexivity.
   - destruct e; reflexivity.
   - destruct l; reflexivity.
@@ -266,8 +269,10 @@ Proof.
   - destruct e; [exact Hw|].
     cbn [wf] in Hw. apply andb_true_iff in Hw. destruct Hw as [H0 _].
     pose proof (IH t c H0) as H. destruct (next_d d t c) as [[r0 t'] c']. cbn [r_tr fst snd] in H.
-    pose proof (uniquify_wf _ IH (S (rem t')) t' c' H) as H2.
-    destruct (uniquify (next_d d) (S (rem t')) t' (exhausted t') c') as [[[r1 t1] e1] c1]. cbn [r_tr fst snd wf] in *.
+    match goal with |- context [uniquify _ _ ?yl0 _ _ _] =>
+      pose proof (uniquify_wf _ IH (S (rem t')) yl0 t' c' H) as H2;
+      destruct (uniquify (next_d d) (S (rem t')) yl0 t' (exhausted t') c') as [[[r1 t1] e1] c1] end.
+    cbn [r_tr fst snd wf] in *.
     destruct H2 as [H2 [H3|H3]]; rewrite H2, H3; [reflexivity|]. cbn. apply orb_true_r.
 Qed.
 
@@ -285,7 +290,7 @@ Lemma add_filter_wf m f : wf (m_res m) = true -> wf (m_res (add_filter m f)) = t
 Proof.
   intro Hw. unfold add_filter. set (d := height (m_res m)). destruct f.
   - unfold mk_uniquified.
-    pose proof (uniquify_wf _ (next_d_wf d) (S (rem (m_res m))) (m_res m) (m_cache m) Hw) as H.
+    pose proof (uniquify_wf _ (next_d_wf d) (S (rem (m_res m))) [] (m_res m) (m_cache m) Hw) as H.
     destruct (uniquify _ _ _ _ _) as [[[r t'] e'] c']. cbn [m_res fst snd wf] in *.
     destruct H as [H2 [H3|H3]]; rewrite H2, H3; [reflexivity|]. cbn. apply orb_true_r.
   - unfold mk_single_char. destruct (exhausted (m_res m)) eqn:E; [cbn [m_res wf]; now rewrite Hw|].
